@@ -143,10 +143,24 @@ func evJSON(ev *auditevent.AuditEvent) string {
 // ---------------------------------------------------------------------------
 // C06 — each supported message yields one UserLogin with exactly its fields.
 
+// deliver hands (pid, msg) to the processor either directly or framed as the
+// daemon receives it ("<pid> <msg>\n" through the syslog ingester).
+func deliver(rig *sshdRig, pid, msg string, framed bool) error {
+	if framed {
+		sli := syslog.NewSyslogIngester("", rig.proc, namedpipe.NamedPipeIngester{})
+		return sli.Process(context.Background(), pid+" "+msg+"\n")
+	}
+	return rig.proc.ProcessSshdLogEntry(context.Background(), sshd.SshdLogEntry{PID: pid, Message: msg})
+}
+
+// framedVariant: every second case (by content hash) goes through the ingester.
+func framedVariant(msg string) bool { return hash64([]byte(msg))%2 == 0 }
+
 func execC06(m sshdMsg) Outcome {
 	rig := newSshdRig(4)
 	before := time.Now()
-	err := rig.proc.ProcessSshdLogEntry(context.Background(), sshd.SshdLogEntry{PID: m.PID, Message: m.Msg})
+	framed := framedVariant(m.Msg)
+	err := deliver(rig, m.PID, m.Msg, framed)
 	after := time.Now()
 	if err != nil {
 		return fail("processing returned error %v for %q", err, m.Msg)
@@ -162,7 +176,7 @@ func execC06(m sshdMsg) Outcome {
 	if ev.LoggedAt.Before(before.Add(-time.Millisecond)) || ev.LoggedAt.After(after.Add(time.Millisecond)) {
 		return fail("loggedAt %v not within processing window [%v, %v]", ev.LoggedAt, before, after)
 	}
-	labels := append([]string{"form:" + m.Form}, m.Feat...)
+	labels := append([]string{"form:" + m.Form, fmt.Sprintf("through_ingester:%v", framed)}, m.Feat...)
 	return Outcome{NT: len(m.Feat) > 0, Labels: labels}
 }
 
@@ -568,7 +582,8 @@ var repoSampleLines = []string{
 func execC17(h hostileCase) Outcome {
 	rig := newSshdRig(4)
 	msg := h.Message()
-	err := rig.proc.ProcessSshdLogEntry(context.Background(), sshd.SshdLogEntry{PID: h.PID, Message: msg})
+	framed := framedVariant(msg)
+	err := deliver(rig, h.PID, msg, framed)
 	if err != nil {
 		return fail("returned error %v for %q", err, msg)
 	}
@@ -587,7 +602,7 @@ func execC17(h hostileCase) Outcome {
 	if n := len(rig.drain()); n != 0 {
 		return fail("a failed attempt forwarded %d login(s)", n)
 	}
-	labels := []string{"form:" + h.Form}
+	labels := []string{"form:" + h.Form, fmt.Sprintf("through_ingester:%v", framed)}
 	nt := false
 	if strings.ContainsAny(h.Name, " \t") {
 		nt = true
@@ -1074,7 +1089,25 @@ func TestC19_History(t *testing.T) {
 		n := rapid.IntRange(2, 12).Draw(rt, "n")
 		c := c19SeqCase{}
 		for i := 0; i < n; i++ {
-			c.Lines = append(c.Lines, genC19(rt))
+			ln := genC19(rt)
+			// sshd logs several lines per connection: lines of a history share few PIDs
+			if ln.M != nil && rapid.IntRange(0, 3).Draw(rt, "samepid") > 0 {
+				pid := pick(rt, "hpid", []string{"4242", "4243"})
+				ln.M.PID = pid
+				if ln.M.Want != nil {
+					ln.M.Want["pid"] = pid
+				}
+			}
+			c.Lines = append(c.Lines, ln)
+		}
+		// typical connection: "Invalid user x" followed by "Failed password for invalid user x"
+		if rapid.IntRange(0, 2).Draw(rt, "conn") == 0 {
+			h := genHostile(rt)
+			h.Form, h.PID = "invalid_user", "5151"
+			m1 := sshdMsg{Form: "invalid_user", PID: h.PID, Msg: h.Message()}
+			h.Form = "failed_password_invalid"
+			m2 := sshdMsg{Form: "failed_password", PID: h.PID, Msg: h.Message()}
+			c.Lines = append(c.Lines, c19Case{M: &m1}, c19Case{M: &m2})
 		}
 		return c
 	}, execC19Seq)
